@@ -97,7 +97,7 @@ def _watchdog(*_a):
 
 
 def run_inproc(capture: bytes, keylog_text=None, opts=(), legacy=False, trace=False, reset=True, infile_name=None,
-               keep_files=False):
+               keep_files=False, stale_out=None):
     """opts: extra CLI arguments.  keylog_text None => no -s option is passed."""
     import logging
     import tlexport.main as m
@@ -108,6 +108,10 @@ def run_inproc(capture: bytes, keylog_text=None, opts=(), legacy=False, trace=Fa
         f.write(capture)
     if os.path.exists(outf):
         os.unlink(outf)
+    if stale_out or (stale_out is None and os.environ.get("VERIF_STALE_OUT")):
+        # the output path already holds a (longer) file of an earlier export: it must be replaced, not patched in place
+        with open(outf, "wb") as f:
+            f.write(b"\x0a\x0d\x0d\x0a" + bytes(range(256)) * 2000)
     argv = ["tlexport", "-i", inf, "-o", outf]
     if keylog_text is not None:
         kf = os.path.join(d, "keys.log")
